@@ -69,6 +69,11 @@ def hdr_of(h):
     return (bytes(h.h1).rstrip(b"\0"), bytes(h.h2), bytes(h.b0))
 
 
+_UKV_KNOWN = {"path", "mode", "h1", "h2", "b0", "_toc", "_last", "_eof", "_closed", "_stream"}
+_BE_KNOWN = {"_path", "_readonly", "_write_queue", "_keys", "_lock", "_bufsize", "_usedmem", "_state", "_ukvfile"}
+_COLL_KNOWN = {"_path", "_backend", "_value_encoder", "_value_decoder", "_encoding"}
+
+
 def exc_name(e):
     return type(e).__name__
 
@@ -366,7 +371,7 @@ class USys:
         for name in sorted(st.handles):
             h = st.handles[name]
             toc = tuple(sorted((k, r.pos, r.key_len, r.record_len) for k, r in h._toc.items()))
-            hs.append((name, st.hmode[name], h.mode, bytes(h.h1), bytes(h.h2), bytes(h.b0), toc, h._eof, h._last, h._closed))
+            hs.append((name, st.hmode[name], h.mode, bytes(h.h1), bytes(h.h2), bytes(h.b0), toc, h._eof, h._last, h._closed, seqx.extra_state(h, _UKV_KNOWN)))
         fb = self.file_bytes_flushed(st)
         return (hashlib.sha1(fb).hexdigest() if fb is not None else None, tuple(hs), tuple(sorted(st.model.items())))
 
@@ -761,7 +766,7 @@ class CSys:
                 u = (uf.mode, toc, uf._eof, uf._last, uf._closed, bytes(uf.h1), bytes(uf.h2), bytes(uf.b0))
             else:
                 u = None
-            hs.append((name, st.cfg[name], st.sess.get(name), be._state, tuple(be._write_queue), tuple(sorted(be._keys)), be._usedmem, be._readonly, u))
+            hs.append((name, st.cfg[name], st.sess.get(name), be._state, tuple(be._write_queue), tuple(sorted(be._keys)), be._usedmem, be._readonly, u, seqx.extra_state(be, _BE_KNOWN), seqx.extra_state(st.handles[name], _COLL_KNOWN), seqx.extra_state(uf, _UKV_KNOWN) if uf is not None else None))
         fb = self.file_bytes()
         return (hashlib.sha1(fb).hexdigest() if fb is not None else None, tuple(hs), tuple(sorted(st.model.items())))
 
@@ -821,7 +826,7 @@ def run(ctx):
     seqx.pbfs(ctx, mkC, [[]], dC)
     ctx.bound["C_2handles_depth"] = dC
     # deeper with a reduced alphabet: stale handles need new+new+enter+set+exit+enter(other)+...
-    dC2 = 8
+    dC2 = 9 if thorough else 7
     mkC2 = lambda c: CSys(c, nhandles=3 if thorough else 2, keys=["a", "k256"], vals={"x": b"x"}, bufs=["dflt", "large"], label="C3")
     seqx.pbfs(ctx, mkC2, [[]], dC2)
     ctx.bound["C_reduced_alphabet_depth"] = dC2
